@@ -697,11 +697,13 @@ fn rule_matches(pattern: &str, branch: &str) -> bool {
 }
 fn branch_family(out: &mut Out) {
     use zerv::cli::flow::branch_rules::{BranchRule, PostMode, PreReleaseLabel as L};
-    let patterns = ["*", "release/*", "develop", "a/*", "/*", "rel/ease/*", "é/*"];
+    let patterns = ["*", "release/*", "develop", "a/*", "/*", "rel/ease/*", "é/*", "team/7/*", "v2/*", "9/*"];
     let branches = ["", "release", "releases", "release/", "release/1", "release/x/12", "release-x/7", "develop", "developer", "a/b", "a", "/x",
                     "rel/ease/3", "rel/ease", "é/1", "éx/1", "*", "release/*", "release/+3", "feature/+7/login", "release/99999999999/3",
                     "release/007/x", "release/-1", "release/1a/2", "a/٣/4", "release//5", "release/4294967295", "release/4294967296/1",
-                    "fix/日本語", "releas日/1", "a日", "日", "日本", "rel/eas日本", "éé", "x日/1"];
+                    "fix/日本語", "releas日/1", "a日", "日", "日本", "rel/eas日本", "éé", "x日/1",
+                    // a digit segment inside the prefix must not be taken for the number ("first all-digit path segment after the prefix")
+                    "team/7/feature/3", "team/7/x", "team/7/", "v2/12/y", "v2/x", "9/8", "9/x/1"];
     for p in patterns {
         for b in branches {
             out.cases += 1;
